@@ -25,8 +25,10 @@ type WorkerPool struct {
 	// ShutdownComplete is a WaitGroup that is used to wait for the WorkerPool to shutdown.
 	ShutdownComplete sync.WaitGroup
 
-	// isRunning indicates if the WorkerPool is running.
-	isRunning bool
+	// isRunning indicates if the WorkerPool is running. It is only written while holding the mutex, but it can be read
+	// without it: the dispatcher and the tasks of a WorkerPool that is shutting down have to be able to call IsRunning
+	// while Start holds the mutex and waits for them to finish.
+	isRunning atomic.Bool
 
 	// dispatcherChan is the channel that is used to dispatch tasks to the workers.
 	dispatcherChan chan *Task
@@ -67,10 +69,10 @@ func (w *WorkerPool) Start() *WorkerPool {
 	w.mutex.Lock()
 	defer w.mutex.Unlock()
 
-	if !w.isRunning {
+	if !w.isRunning.Load() {
 		w.ShutdownComplete.Wait()
 
-		w.isRunning = true
+		w.isRunning.Store(true)
 
 		w.startDispatcher()
 		w.startWorkers()
@@ -133,10 +135,7 @@ func (w *WorkerPool) DebounceFunc() (debounce func(workerFunc func(), optStackTr
 
 // IsRunning returns true if the WorkerPool is running.
 func (w *WorkerPool) IsRunning() bool {
-	w.mutex.RLock()
-	defer w.mutex.RUnlock()
-
-	return w.isRunning
+	return w.isRunning.Load()
 }
 
 // WorkerCount returns the number of workers that are used to execute tasks.
@@ -160,15 +159,17 @@ func (w *WorkerPool) shutdown() (wasRunning bool) {
 	w.mutex.Lock()
 	defer w.mutex.Unlock()
 
-	if !w.isRunning {
+	if !w.isRunning.Load() {
 		return false
 	}
-
-	w.isRunning = false
 
 	for range w.workerCount {
 		w.shutdownSignal <- struct{}{}
 	}
+
+	// the flag is read without the mutex: it is cleared after the workers were signaled, so that the dispatcher
+	// only stops dispatching (and closes the dispatcher channel) once every worker has a shutdown signal waiting
+	w.isRunning.Store(false)
 
 	return true
 }
